@@ -56,6 +56,8 @@ type Contract struct {
 	Uses     []Clause
 	LoopUses map[string][]Clause
 	Specialize map[string][]string
+	SpecConsts map[string][]int64 // named constants with a finite list of values (one verification each)
+	Decreases  *Clause            // termination measure for recursive calls
 	Inherited string // contract inherited from this (identical) repository package
 	LoopAssert map[string][]Clause // ghost assertions at the end of a loop body (proved, then assumed)
 	LoopExitAssert map[string][]Clause // the same at `break` exits of the loop
@@ -218,7 +220,7 @@ func (u *Universe) loadDeps(dir string) error {
 
 var clauseWords = map[string]bool{"requires": true, "ensures": true, "modifies": true, "panics": true,
 	"loop": true, "repr": true, "inline": true, "props": true, "opaque": true, "unroll": true, "note": true, "induct": true, "cover": true,
-	"bv": true, "intvar": true, "theory": true, "returns": true, "let": true, "use": true, "noframe": true, "specialize": true}
+	"bv": true, "intvar": true, "theory": true, "returns": true, "decreases": true, "let": true, "use": true, "noframe": true, "specialize": true}
 
 func (u *Universe) parseContractFile(path, pkgPath string, deps bool) error {
 	data, err := os.ReadFile(path)
@@ -261,6 +263,9 @@ func (u *Universe) parseContractFile(path, pkgPath string, deps bool) error {
 					curC.LoopDec[p.loop] = cl
 				case "loopmod":
 					curC.LoopMod[p.loop] = append(curC.LoopMod[p.loop], cl)
+				case "decreases":
+					cc := cl
+					curC.Decreases = &cc
 				case "use":
 					curC.Uses = append(curC.Uses, cl)
 				case "loopuse":
@@ -472,6 +477,10 @@ func (u *Universe) parseContractFile(path, pkgPath string, deps bool) error {
 			continue
 		}
 		switch word {
+		case "decreases":
+			s := rest
+			pend = append(pend, pending{kind: "decreases", text: &s, line: where})
+			lastClause = pend[len(pend)-1].text
 		case "requires", "ensures", "modifies":
 			s := rest
 			pend = append(pend, pending{kind: word, text: &s, line: where})
@@ -545,6 +554,19 @@ func (u *Universe) parseContractFile(path, pkgPath string, deps bool) error {
 			f := strings.Fields(rest)
 			if len(f) < 2 {
 				return fmt.Errorf("%s: bad specialize clause", where)
+			}
+			if len(f) >= 3 && f[1] == "=" {
+				// specialize NAME = v1 v2 ...: one verification per value of the named constant
+				if curC.SpecConsts == nil {
+					curC.SpecConsts = map[string][]int64{}
+				}
+				for _, v := range f[2:] {
+					var k int64
+					fmt.Sscan(v, &k)
+					curC.SpecConsts[f[0]] = append(curC.SpecConsts[f[0]], k)
+				}
+				lastClause = nil
+				break
 			}
 			if curC.Specialize == nil {
 				curC.Specialize = map[string][]string{}
